@@ -6,7 +6,7 @@
 From Coq Require Import List ZArith NArith Bool Arith String.
 Import ListNotations.
 From DD Require Import Base.Sx Base.PyStr Base.Value Path.PathModel Diff.Tree Diff.DiffModel Diff.DiffShow
-  Delta.DeltaModel Delta.DeltaShow Delta.DeltaChainRun.
+  Delta.DeltaModel Delta.DeltaShow Delta.DeltaChainRun Delta.DeltaChainAll.
 
 Record cstep := mkCStep {
   cs_t1 : value;
@@ -15,7 +15,8 @@ Record cstep := mkCStep {
   cs_ops : list (path * list opcode);
   cs_conv : list (ty * value * option value);
   cs_rem : list path;
-  cs_add : list path }.
+  cs_add : list path;
+  cs_all : bool }.        (* evaluate [okb_allb] (all reorderings of t1: factorial) at this step *)
 
 (* Delta(DeepDiff(t1, t2)) of one step, as DeltaChain.delta_of with the step's tables *)
 Definition cs_delta (c : cfg) (bidir always : bool) (s : cstep) : delta :=
@@ -24,14 +25,16 @@ Definition cs_delta (c : cfg) (bidir always : bool) (s : cstep) : delta :=
   to_delta (tbl_conv (cs_conv s)) bidir always ops (cs_t1 s) (cs_t2 s) (fst r) (snd r).
 
 (* per step: [okbb at the running value; [running result (dict / set order forgotten); error logged];
-   running result with the insertion order of its dicts (what [okbb] of the later steps depends on)] *)
+   running result with the insertion order of its dicts (what [okbb] of the later steps depends on);
+   okb_allb t1 t2 - the decidable form of the hypothesis [okb_all] of C01_chain_veq_partial - where asked for] *)
 Fixpoint chain_run (c : cfg) (bidir always : bool) (cur : value) (steps : list cstep) : list sx :=
   match steps with
   | [] => []
   | s :: r =>
       let cv := tbl_conv (cs_conv s) in
       let res := apply cv (order_by (cs_rem s) fst) (order_by (cs_add s) fst) (cs_delta c bidir always s) cur in
-      SL [sx_bool (okbb cv bidir always cur (cs_t1 s) (cs_t2 s)); sx_result res; sx_value (fst res)]
+      SL [sx_bool (okbb cv bidir always cur (cs_t1 s) (cs_t2 s)); sx_result res; sx_value (fst res);
+          sx_opt sx_bool (if cs_all s then Some (okb_allb cv bidir always (cs_t1 s) (cs_t2 s)) else None)]
         :: chain_run c bidir always (fst res) r
   end.
 
